@@ -25,8 +25,19 @@ impl ResourceClass {
 pub assume_specification [CsrInfo::key_id] (c: &CsrInfo) -> (r: KeyIdentifier) ensures r == csr_key(*c);
 pub assume_specification [Validity::not_after] (v: Validity) -> (r: Time);
 pub assume_specification [Duration::days] (s: i64) -> (r: Duration);
-pub assume_specification [IssuanceRequest::unpack] (r: IssuanceRequest) -> (o: (ResourceClassName, RequestResourceLimit, Csr));
-pub assume_specification [CsrInfo::vx_try_from] (c: &Csr) -> (r: Result<CsrInfo, Error>);
+pub uninterp spec fn req_csr(r: IssuanceRequest) -> Csr;
+pub uninterp spec fn csr_info_of(c: Csr) -> Option<CsrInfo>;
+pub assume_specification [IssuanceRequest::unpack] (r: IssuanceRequest) -> (o: (ResourceClassName, RequestResourceLimit, Csr)) ensures o.2 == req_csr(r);
+pub assume_specification [CsrInfo::vx_try_from] (c: &Csr) -> (r: Result<CsrInfo, Error>)
+    ensures match r { Ok(i) => csr_info_of(*c) == Some(i), Err(_) => csr_info_of(*c) is None };
+/// ASSUMED: `==` / `!=` on child handles is value equality (string comparison in rpki-rs)
+impl vstd::std_specs::cmp::PartialEqSpecImpl for ChildHandle {
+    open spec fn obeys_eq_spec() -> bool { true }
+    open spec fn eq_spec(&self, other: &ChildHandle) -> bool { *self == *other }
+}
+pub assume_specification [<ChildHandle as PartialEq>::eq] (a: &ChildHandle, b: &ChildHandle) -> (r: bool);
+/// the child has a certificate in use for this key (ChildDetails::is_issued: used_keys says InUse)
+pub uninterp spec fn key_in_use(c: ChildDetails, ki: KeyIdentifier) -> bool;
 /// what the statement demands of every issuance: the resources handed to the issuing step lie inside the entitlement
 /// the child has NOW
 pub open spec fn within_entitlement(ca: CertAuth, child: ChildHandle, res: ResourceSet) -> bool {
@@ -63,7 +74,8 @@ impl IssuanceRequest { pub fn unpack(self) -> (ResourceClassName, RequestResourc
     U.struct(CH, 'ChildCertificateUpdates', derive=[], default_ensures=[
         ('empty', 'r.issued@.len() == 0 && r.removed@.len() == 0 && r.suspended@.len() == 0 && r.unsuspended@.len() == 0')])
     U.enum(EV, 'CertAuthEvent', keep=['ChildCertificatesUpdated', 'ChildUnsuspended', 'ChildCertificateIssued'], derive=[])
-    U.enum(ERR, 'Error', keep=['CaChildUnknown'], derive=[])
+    U.enum(ERR, 'Error', keep=['CaChildUnknown', 'KeyUseAttemptReuse'], derive=[])
+    prelude.map_any(U)
     U.add(SPEC)
     km = 'obeys_key_model::<ChildHandle>() && obeys_key_model::<ResourceClassName>() && obeys_key_model::<KeyIdentifier>()'
     U.impl('impl ChildState', [
@@ -75,6 +87,8 @@ impl IssuanceRequest { pub fn unpack(self) -> (ResourceClassName, RequestResourc
     U.impl('impl ChildDetails', [
         U.fn(CH, 'ChildDetails', 'parent_name_for_rcn', external_body=True, ensures=[('is_mapping', 'r == parent_name(*self, *name_in_child)')]),
         U.fn(CH, 'ChildDetails', 'issued', external_body=True),
+        # verified in unit c03_child_revoke; here it names the fact
+        U.fn(CH, 'ChildDetails', 'is_issued', external_body=True, ensures=[('names', 'r == key_in_use(*self, *ki)')]),
     ])
     U.impl('impl CertAuth', [
         U.fn(CA, 'CertAuth', 'get_child', requires=[('km', km)], ensures=[
@@ -84,7 +98,15 @@ impl IssuanceRequest { pub fn unpack(self) -> (ResourceClassName, RequestResourc
         U.fn(CA, 'CertAuth', 'append_child_certify', external_body=True,
              requires=[('resources_within_current_entitlement_of_child', 'within_entitlement(*self, child_handle, *resources)')]),
         U.fn(CA, 'CertAuth', 'process_child_certify', requires=[('km', km)], ghost=[(('body_start',), 'broadcast use axiom_rs_contains_refl;')],
-             subst=[('CsrInfo::try_from(&csr)?', 'CsrInfo::vx_try_from(&csr)?', 'R9')]),
+             subst=[('CsrInfo::try_from(&csr)?', 'CsrInfo::vx_try_from(&csr)?', 'R9')],
+             map_any={'self.children': {'header': '|vx_p: (&ChildHandle, &ChildDetails)| -> (b: bool)',
+                                        'ensures': 'b == (*vx_p.0 != child_handle && key_in_use(*vx_p.1, ki))'}},
+             ensures=[
+                 # F20: certificates are filed under the key they certify, so a request may only obtain (and thereby replace) a
+                 # certificate of the SENDER: a key that another child has in use is refused
+                 ('never_for_a_key_that_another_child_has_in_use', '''r is Ok ==> csr_info_of(req_csr(request)) is Some && forall |h: ChildHandle| #[trigger] self.children@.contains_key(h) && h != child_handle
+                        ==> !key_in_use(self.children@[h], csr_key(csr_info_of(req_csr(request))->Some_0))'''),
+             ]),
         U.fn(CA, 'CertAuth', 'process_child_unsuspend', requires=[('km', km)],
              ensures=[('unknown_child_refused', '!self.children@.contains_key(*child_handle) ==> r is Err'),
                       ('active_child_noop', 'self.children@.contains_key(*child_handle) && !(self.children@[*child_handle].state is Suspended) ==> r is Ok && r->Ok_0@.len() == 0')],
